@@ -14,6 +14,8 @@ import (
 	"strings"
 	"sync"
 	"time"
+
+	k8yaml "sigs.k8s.io/yaml"
 )
 
 type val struct {
@@ -249,6 +251,26 @@ func JSONDocs(malformedAt int, docs ...map[string]any) []byte {
 	}
 	if malformedAt >= len(docs) {
 		b = append(b, []byte("{\"operation\": \n")...)
+	}
+	return b
+}
+
+
+// YAMLDocs is the same stream written as YAML documents separated by "---" (block
+// style, so the bytes are not valid JSON).  Under the symbolic engine it is the same
+// opaque carrier, read by yaml.NewDecoder(bytes.NewReader(b)).Decode; a JSON decoder
+// rejects it at the first document.
+func YAMLDocs(docs ...map[string]any) []byte {
+	var b []byte
+	for i, d := range docs {
+		if i > 0 {
+			b = append(b, []byte("---\n")...)
+		}
+		y, err := k8yaml.Marshal(d)
+		if err != nil {
+			panic(InvalidReplay{"document cannot be encoded: " + err.Error()})
+		}
+		b = append(b, y...)
 	}
 	return b
 }
